@@ -131,7 +131,9 @@ class K:
     def real(self, name):
         if self.mode == "native":
             if self.model is not None and name in self.model:
-                v = self.model[name]
+                import numpy as np
+
+                v = float(np.float32(self.model[name]))
             else:
                 v = self.rng.choice([-2.0, -1.0, -0.5, 0.0, 0.25, 0.5, 1.0, 1.5, 2.0, 3.0])
             self.inputs[name] = v
@@ -158,7 +160,9 @@ class K:
 
             shp = tuple(int(d) for d in shape)
             if self.model is not None and name in self.model:
-                arr = np.array(self.model[name]).reshape(shp)
+                # the dtype the real code will see (float32 unless x64 is enabled): exact comparisons in the
+                # contract must use the same rounded values
+                arr = np.array(self.model[name], dtype={"bool": bool, "int": np.int32, "float": np.float32}[dtype]).reshape(shp)
             else:
                 n = 1
                 for d in shp:
